@@ -2,7 +2,7 @@
    and refines the reference semantics (plain finite maps). *)
 From stdpp Require Import gmap list.
 From Coq Require Import NArith Lia.
-From G Require Import Arith Monad Types Inv Raw RawProofs Map MapProofs.
+From G Require Import Arith Monad Types Inv Raw RawProofs Map MapProofs Cost.
 Local Open Scope N_scope.
 
 (* ---------------------------------------------------------------- the reference *)
@@ -268,6 +268,48 @@ Proof.
 Qed.
 
 
+(* ------------------------------------------------------------------ without a fuse, no user panic *)
+
+Definition wnf {A} (r : res world A) : Prop :=
+  match r with
+  | Ok _ w' => w_fuse w' = None
+  | Unwind p w' => p <> PUser /\ w_fuse w' = None
+  | Fault _ => True
+  end.
+
+Lemma with_slot_gen_nf {A} h w i on perm (m : M' A) :
+  nf m -> w_fuse w = None -> wnf (with_slot_gen h w i on perm m).
+Proof.
+  intros Hm Hf. unfold with_slot_gen. destruct (w_maps w !! i) as [ms|]; [|exact I].
+  destruct (h && _); [exact I|]. specialize (Hm (load w ms on perm)). unfold wpp in Hm.
+  destruct (m (load w ms on perm)) as [a s'|p s'|f]; cbn; [| |exact I].
+  - apply Hm. exact Hf.
+  - destruct (Hm Hf). auto.
+Qed.
+
+Lemma wnf_rmap {A B} (f : A -> B) r : wnf r -> wnf (rmap f r).
+Proof. destruct r; exact (fun H => H). Qed.
+
+Theorem step_core_nofuse w t :
+  core_op (t_op t) -> w_fuse w = None -> wnf (step c w t).
+Proof.
+  intros Hcore Hf. unfold step. destruct (t_op t) eqn:Eop; cbn [core_op] in Hcore; try contradiction.
+  - apply with_slot_gen_nf; [|exact Hf].
+    apply nf_bind; [apply (nf_of_cost _ _ (cost_hb_with_capacity c false cap))|]. intros [t0|]; [|apply nf_fault].
+    apply nf_bind; [apply (nf_of_cost dz), cost_setm|intros _; apply nf_ret].
+  - apply wnf_rmap. apply with_slot_gen_nf; [|exact Hf]. apply (nf_of_cost _ _ (cost_map_insert c k kid v)).
+  - apply with_slot_gen_nf; [|exact Hf]. apply (nf_of_cost _ _ (cost_map_get _ _ _)).
+  - apply with_slot_gen_nf; [|exact Hf].
+    apply nf_bind; [apply (nf_of_cost _ _ (cost_map_remove_entry c k))|]. intros [e|]; [|apply nf_ret].
+    destruct entry; [apply nf_ret|]. apply nf_bind; [apply (nf_of_cost dz), cost_drop_key|intros _; apply nf_ret].
+  - apply wnf_rmap. apply with_slot_gen_nf; [|exact Hf]. apply nf_rt_clear.
+  - apply wnf_rmap. apply with_slot_gen_nf; [|exact Hf]. apply nf_rt_reserve.
+  - apply wnf_rmap. apply with_slot_gen_nf; [|exact Hf]. apply nf_rt_reserve.
+  - apply wnf_rmap. apply with_slot_gen_nf; [|exact Hf]. apply nf_rt_shrink_to.
+  - pose proof (with_slot_gen_nf false w s (t_on t, t_tomb t) (t_perm t, t_qperm t) map_drop nf_map_drop Hf) as H.
+    unfold with_slot. destruct (with_slot_gen false w s (t_on t, t_tomb t) (t_perm t, t_qperm t) map_drop); exact H.
+Qed.
+
 (* ------------------------------------------------------------------ histories *)
 
 (* the reference run: every recorded outcome is one the reference allows; an injected user
@@ -310,6 +352,37 @@ Proof.
     destruct IH as (HW2 & rs & -> & Hruns). split; [exact HW2|]. exists (o :: rs).
     split; [rewrite <- app_assoc; reflexivity|]. cbn [map].
     destruct Hrel as [Hrel| ->]; [eapply sr_cons; eauto|eapply sr_user; eauto].
+Qed.
+
+
+(* without a fuse the reference predicts every outcome: no user panic, no undocumented panic *)
+Inductive spec_runs0 : gmap N (gmap N elem) -> list op -> list out -> gmap N (gmap N elem) -> Prop :=
+| sr0_nil σ : spec_runs0 σ [] [] σ
+| sr0_cons σ o r σ1 os rs σ2 :
+    spec_rel σ o r σ1 -> spec_runs0 σ1 os rs σ2 -> spec_runs0 σ (o :: os) (r :: rs) σ2.
+
+Theorem run_core_nofuse : forall ts w acc,
+  WInv w -> w_fuse w = None -> Forall core_op (map t_op ts) ->
+  match run c w ts acc with
+  | inl (w', outs) =>
+      WInv w' /\ w_fuse w' = None /\ exists rs, outs = acc ++ rs /\ spec_runs0 (wabs w) (map t_op ts) rs (wabs w')
+  | inr f => benign f
+  end.
+Proof.
+  induction ts as [|t ts IH]; intros w acc HW Hfz Hall; cbn [run].
+  - split; [exact HW|]. split; [exact Hfz|]. exists []. split; [rewrite app_nil_r; reflexivity|constructor].
+  - cbn [map] in Hall. apply Forall_cons in Hall as [Hc Hall].
+    pose proof (step_core w t HW Hc) as Hs. pose proof (step_core_nofuse w t Hc Hfz) as Hn.
+    unfold step_caught. destruct (step c w t) as [o w1|p w1|f]; cbn [wres wnf] in Hs, Hn; [| |exact Hs].
+    + destruct Hs as [HW1 Hrel]. specialize (IH w1 (acc ++ [o]) HW1 Hn Hall).
+      destruct (run c w1 ts (acc ++ [o])) as [[w2 outs]|f]; [|exact IH].
+      destruct IH as (HW2 & Hf2 & rs & -> & Hruns). split; [exact HW2|]. split; [exact Hf2|]. exists (o :: rs).
+      split; [rewrite <- app_assoc; reflexivity|]. cbn [map]. eapply sr0_cons; eauto.
+    + destruct Hn as [Hp Hf1]. destruct Hs as [[_ [HW1 Hrel]]|[-> _]]; [|congruence].
+      specialize (IH w1 (acc ++ [OutP p]) HW1 Hf1 Hall).
+      destruct (run c w1 ts (acc ++ [OutP p])) as [[w2 outs]|f]; [|exact IH].
+      destruct IH as (HW2 & Hf2 & rs & -> & Hruns). split; [exact HW2|]. split; [exact Hf2|]. exists (OutP p :: rs).
+      split; [rewrite <- app_assoc; reflexivity|]. cbn [map]. eapply sr0_cons; eauto.
 Qed.
 
 End World.
